@@ -764,3 +764,248 @@ func (c *Ctx) EdgeCannotReach(ie IfEdge, sinks []Site) (bool, string) {
 	}
 	return true, ""
 }
+
+// Const returns the canonical descriptor ("const(V)") of a package-level constant.
+func (c *Ctx) Const(pkg, name string) string {
+	p := c.P.Package(pkg)
+	if p == nil {
+		c.Undecided("package %s not loaded", pkg)
+		return "const(?)"
+	}
+	obj, ok := p.Types.Scope().Lookup(name).(*types.Const)
+	if !ok {
+		c.Undecided("constant %s.%s not found", pkg, name)
+		return "const(?)"
+	}
+	return "const(" + obj.Val().String() + ")"
+}
+
+// ParamsReachingResult: which parameters (receiver excluded, 0-based) flow, through any
+// chain of SSA operands, into a returned value of fn.
+func ParamsReachingResult(fn *ssa.Function) map[int]bool {
+	seen := map[ssa.Value]bool{}
+	var walk func(v ssa.Value)
+	walk = func(v ssa.Value) {
+		if v == nil || seen[v] {
+			return
+		}
+		seen[v] = true
+		if in, ok := v.(ssa.Instruction); ok {
+			for _, op := range in.Operands(nil) {
+				if op != nil && *op != nil {
+					walk(*op)
+				}
+			}
+		}
+		// values stored into a local that is later read
+		if a, ok := v.(*ssa.Alloc); ok {
+			if refs := a.Referrers(); refs != nil {
+				for _, r := range *refs {
+					if st, ok := r.(*ssa.Store); ok && st.Addr == a {
+						walk(st.Val)
+					}
+				}
+			}
+		}
+		// stores through derived addresses (x.f = v, x[i] = v) feed the aggregate
+		if refs := v.Referrers(); refs != nil {
+			for _, r := range *refs {
+				switch x := r.(type) {
+				case *ssa.FieldAddr:
+					walkStores(x, walk)
+				case *ssa.IndexAddr:
+					walkStores(x, walk)
+				}
+			}
+		}
+	}
+	ir.EachInstr(fn, func(in ssa.Instruction) {
+		if r, ok := in.(*ssa.Return); ok {
+			for _, v := range r.Results {
+				walk(v)
+			}
+		}
+	})
+	out := map[int]bool{}
+	for i, p := range fn.Params {
+		if seen[p] {
+			idx := i
+			if fn.Signature.Recv() != nil {
+				idx = i - 1
+			}
+			out[idx] = true
+		}
+	}
+	return out
+}
+
+func walkStores(addr ssa.Value, walk func(ssa.Value)) {
+	if refs := addr.Referrers(); refs != nil {
+		for _, r := range *refs {
+			if st, ok := r.(*ssa.Store); ok && st.Addr == addr {
+				walk(st.Val)
+			}
+		}
+	}
+}
+
+// RequireAllParamsUsed: every parameter of the key/encoding constructor fn flows into its
+// result (a parameter that is ignored makes distinct inputs collide).
+func (c *Ctx) RequireAllParamsUsed(rule, name string) {
+	fn := c.Fn(name)
+	if fn == nil {
+		return
+	}
+	used := ParamsReachingResult(fn)
+	n := fn.Signature.Params().Len()
+	for i := 0; i < n; i++ {
+		key := fmt.Sprintf("%s/%s/param-in-result/%s", rule, name, fn.Signature.Params().At(i).Name())
+		if used[i] {
+			c.OK(key, c.P.Pos(fn.Pos()), "flows into the result")
+		} else {
+			c.Fail(key, c.P.Pos(fn.Pos()), fmt.Sprintf("parameter #%d (%s) of %s does not flow into its result: values differing only in it collide", i, fn.Signature.Params().At(i).Name(), name))
+		}
+	}
+}
+
+func itoa(n int) string { return fmt.Sprint(n) }
+
+// fieldNameOf: if v is a load of a struct field (or a Field extraction), its name.
+func fieldNameOf(v ssa.Value) string {
+	switch x := v.(type) {
+	case *ssa.UnOp:
+		if x.Op == token.MUL {
+			if fa, ok := x.X.(*ssa.FieldAddr); ok {
+				if f := ir.FieldOf(fa); f != nil {
+					return f.Name()
+				}
+			}
+		}
+	case *ssa.Field:
+		if f := ir.FieldOf(x); f != nil {
+			return f.Name()
+		}
+	}
+	return ""
+}
+
+// BackwardFields: the struct fields ("pkg.Type.Field") and callee keys that v depends on
+// through SSA operands (data dependence only).
+func BackwardDeps(v ssa.Value) (fields map[string]bool, calls map[string]bool) {
+	fields, calls = map[string]bool{}, map[string]bool{}
+	seen := map[ssa.Value]bool{}
+	var walk func(v ssa.Value)
+	walk = func(v ssa.Value) {
+		if v == nil || seen[v] {
+			return
+		}
+		seen[v] = true
+		switch x := v.(type) {
+		case *ssa.FieldAddr:
+			fields[ir.FieldKey(x)] = true
+		case *ssa.Field:
+			fields[ir.FieldKey(x)] = true
+		case *ssa.Call:
+			calls[ir.CalleeName(&x.Call)] = true
+		case *ssa.Alloc:
+			if refs := x.Referrers(); refs != nil {
+				for _, r := range *refs {
+					if st, ok := r.(*ssa.Store); ok && st.Addr == x {
+						walk(st.Val)
+					}
+				}
+			}
+		}
+		if in, ok := v.(ssa.Instruction); ok {
+			for _, op := range in.Operands(nil) {
+				if op != nil && *op != nil {
+					walk(*op)
+				}
+			}
+		}
+	}
+	walk(v)
+	return
+}
+
+// RequireArgNamesAgree: at a call whose arguments are struct-field loads, no argument's
+// field name equals (case-insensitively) the name of a *different* parameter of the
+// callee — the signature of two swapped arguments.
+func (c *Ctx) RequireArgNamesAgree(rule string, s Site) {
+	call := ir.CallOf(s.Instr)
+	callee := call.StaticCallee()
+	if callee == nil {
+		return
+	}
+	sig := callee.Signature
+	off := len(call.Args) - sig.Params().Len()
+	names := map[string]int{}
+	for i := 0; i < sig.Params().Len(); i++ {
+		names[strings.ToLower(sig.Params().At(i).Name())] = i
+	}
+	checked := 0
+	for i := 0; i < sig.Params().Len(); i++ {
+		fn := strings.ToLower(fieldNameOf(call.Args[off+i]))
+		if fn == "" {
+			continue
+		}
+		if j, ok := names[fn]; ok {
+			checked++
+			key := fmt.Sprintf("%s/%s/arg-name-agreement/%s→%s", rule, topName(s.Fn), fn, ir.StaticName(callee))
+			if j == i {
+				c.OK(key, c.P.InstrPos(s.Instr), fmt.Sprintf("field %s passed as parameter %s", fn, sig.Params().At(i).Name()))
+			} else {
+				c.Fail(key, c.P.InstrPos(s.Instr), fmt.Sprintf("field %s is passed in the position of parameter %q while the callee has a parameter named %q at position %d: swapped arguments", fn, sig.Params().At(i).Name(), sig.Params().At(j).Name(), j))
+			}
+		}
+	}
+	if checked == 0 {
+		c.Undecided("%s: no field-named arguments at %s", rule, c.P.InstrPos(s.Instr))
+	}
+}
+
+// RequireResultNamesAgree: in fn, every store of an extracted result of a call to
+// `callee` into a struct field goes to the field that carries the same name
+// (case-insensitive) as the callee's named result.
+func (c *Ctx) RequireResultNamesAgree(rule string, fn *ssa.Function, callee string, min int) {
+	n := 0
+	for _, f := range ir.WithClosures(fn) {
+		ir.EachInstr(f, func(in ssa.Instruction) {
+			st, ok := in.(*ssa.Store)
+			if !ok {
+				return
+			}
+			fa, ok := st.Addr.(*ssa.FieldAddr)
+			if !ok {
+				return
+			}
+			ex, ok := st.Val.(*ssa.Extract)
+			if !ok {
+				return
+			}
+			call, ok := ex.Tuple.(*ssa.Call)
+			if !ok || ir.CalleeName(&call.Call) != callee {
+				return
+			}
+			sc := call.Call.StaticCallee()
+			if sc == nil {
+				return
+			}
+			rn := sc.Signature.Results().At(ex.Index).Name()
+			fld := ir.FieldOf(fa)
+			if rn == "" || fld == nil {
+				return
+			}
+			n++
+			key := fmt.Sprintf("%s/%s/result-name-agreement/%s", rule, ir.FuncName(fn), fld.Name())
+			if strings.EqualFold(rn, fld.Name()) {
+				c.OK(key, c.P.InstrPos(in), "result "+rn+" → field "+fld.Name())
+			} else {
+				c.Fail(key, c.P.InstrPos(in), fmt.Sprintf("result %q of %s is stored into field %q: decoded components are swapped", rn, callee, fld.Name()))
+			}
+		})
+	}
+	if n < min {
+		c.Undecided("%s: expected >=%d field stores from %s in %s, found %d", rule, min, callee, ir.FuncName(fn), n)
+	}
+}
